@@ -87,7 +87,11 @@ fn perturb(v: &RVal, p: &Pert) -> (RVal, &'static str) {
                         }
                     }
                     3 => {
-                        if f.is_finite() {
+                        if f.is_finite() && aux % 4 == 0 {
+                            // the default unit (no identifiers) next to no unit at all
+                            *u = if u.is_none() { Some(vec![]) } else { None };
+                            label = "number:default-unit-vs-none";
+                        } else if f.is_finite() {
                             *u = Some(unit.clone());
                             label = "number:unit-swapped";
                         }
@@ -154,7 +158,13 @@ fn perturb(v: &RVal, p: &Pert) -> (RVal, &'static str) {
                 // same zone, an hour (or a second) earlier or later: around a change of offset two instants of one
                 // zone share their wall-clock reading
                 let z = zones::zone_by_id(&d.tz).expect("zone");
-                d.secs += [3600, -3600, 1800, -1][aux as usize % 4];
+                match aux % 7 {
+                    // the nearest neighbours inside one millisecond / one microsecond
+                    4 => d.nanos = if d.nanos % 1_000_000 < 500_000 { d.nanos + 250_000 } else { d.nanos - 250_000 },
+                    5 => d.nanos = if d.nanos % 1_000 < 500 { d.nanos + 1 } else { d.nanos - 1 },
+                    6 => d.nanos = (d.nanos / 1_000_000) * 1_000_000 + (d.nanos + 333_333) % 1_000_000,
+                    k => d.secs += [3600, -3600, 1800, -1][k as usize],
+                }
                 d.offset = zones::offset_at(&z.tz, d.secs);
                 label = "datetime:same-zone-shifted";
             }
